@@ -612,7 +612,7 @@ Definition frame (s s' : fstate) : Prop :=
 Lemma frame_refl s : frame s s.
 Proof. repeat split. apply ple_refl. Qed.
 
-Ltac fr := unfold frame; cbn; repeat split; try reflexivity; try apply ple_refl.
+Ltac fr := solve [unfold frame; cbn; repeat split; try reflexivity; try apply ple_refl].
 
 Lemma frame_trans a b d : frame a b -> frame b d -> frame a d.
 Proof.
